@@ -123,6 +123,9 @@ func parseBounded(rep *Report, text, tag string, expect int, checkName, boundDes
 
 
 func boundedKind(tag string) string {
+	if tag == "c10sched" {
+		return "bounded enumeration of thread schedules of the real functions under a cooperative scheduler (depth-first up to a cap, then random schedules; not a proof)"
+	}
 	if tag == "c06map" {
 		return "bounded pseudo-random differential execution of the real functions against Go's own map (not a proof, not exhaustive)"
 	}
